@@ -462,6 +462,12 @@ func (o Opt) norm() Opt {
 type Step struct {
 	Kind    Kind
 	Batches [][]string
+	// Raft index and term of the snapshot (0: Apply picks 10, 20, ... in term 1).
+	// GenShape starts just below a decimal digit boundary (7-9, 97-99, 997-999;
+	// terms 1, 9, 99) and advances by 1..3, so that chains cross 9->10, 99->100
+	// ...: snapshot ids are unpadded "<term>-<index>-<msec>" and anything that
+	// orders them as strings gets such chains wrong.
+	Index, Term uint64
 }
 
 // Shape is a pure-data description of a store history. The first step is
@@ -484,7 +490,12 @@ func (s Shape) String() string {
 			parts = append(parts, fmt.Sprintf("X%d", len(st.Batches)))
 		}
 	}
-	return strings.Join(parts, ",")
+	out := strings.Join(parts, ",")
+	if len(s.Steps) > 0 && s.Steps[0].Index != 0 {
+		l := s.Steps[len(s.Steps)-1]
+		out += fmt.Sprintf("@%d/%d..%d/%d", s.Steps[0].Term, s.Steps[0].Index, l.Term, l.Index)
+	}
+	return out
 }
 
 // Canon renders the shape completely (for distinct-case hashing).
@@ -492,7 +503,7 @@ func (s Shape) Canon() string {
 	var sb strings.Builder
 	sb.WriteString(strings.Join(s.Init, ";"))
 	for _, st := range s.Steps {
-		fmt.Fprintf(&sb, "|%s", st.Kind)
+		fmt.Fprintf(&sb, "|%s@%d/%d", st.Kind, st.Term, st.Index)
 		for _, b := range st.Batches {
 			sb.WriteString("[" + strings.Join(b, ";") + "]")
 		}
@@ -507,8 +518,10 @@ var schema = []string{
 	`CREATE TABLE vlog (n INTEGER PRIMARY KEY, what TEXT)`,
 }
 
-// GenBatch generates 1..5 write statements; the last one always inserts row
-// seq into vlog, so the batch changes the database (seq must be unique).
+// GenBatch generates 2..6 write statements; the last two always insert row seq
+// into vlog and overwrite row 0 of vlog with seq, so the batch changes the
+// database and later batches overwrite what earlier ones wrote (seq must be
+// unique and positive).
 func GenBatch(rt *rapid.T, seq int, o Opt) []string {
 	n := rapid.IntRange(0, 4).Draw(rt, "nstmt")
 	var out []string
@@ -516,6 +529,9 @@ func GenBatch(rt *rapid.T, seq int, o Opt) []string {
 		out = append(out, genStmt(rt, o))
 	}
 	out = append(out, fmt.Sprintf(`INSERT INTO vlog(n, what) VALUES(%d, 'batch')`, seq))
+	// every batch overwrites the same row (and page): WAL files applied in the
+	// wrong order, or one of them dropped, always change the content
+	out = append(out, fmt.Sprintf(`INSERT OR REPLACE INTO vlog(n, what) VALUES(0, 'last batch = %d')`, seq))
 	return out
 }
 
@@ -567,14 +583,22 @@ func GenShape(rt *rapid.T, o Opt) Shape {
 	seq := 0
 	batch := func() []string { seq++; return GenBatch(rt, seq, o) }
 	n := rapid.IntRange(1, o.MaxSteps).Draw(rt, "nsteps")
+	index := uint64(rapid.SampledFrom([]int{7, 8, 9, 97, 98, 99, 997, 998, 999, 10, 3}).Draw(rt, "index0"))
+	term := uint64(rapid.SampledFrom([]int{1, 1, 9, 9, 99}).Draw(rt, "term0"))
 	for i := 0; i < n; i++ {
+		if i > 0 {
+			index += uint64(rapid.IntRange(1, 3).Draw(rt, "dindex"))
+			if rapid.IntRange(0, 3).Draw(rt, "termbump") == 0 {
+				term++
+			}
+		}
 		var k Kind
 		if i == 0 {
 			k = rapid.SampledFrom([]Kind{Full, Full, Installed}).Draw(rt, "kind0")
 		} else {
 			k = rapid.SampledFrom([]Kind{Incremental, Incremental, Incremental, Full, Installed}).Draw(rt, "kind")
 		}
-		st := Step{Kind: k}
+		st := Step{Kind: k, Index: index, Term: term}
 		switch k {
 		case Full:
 			st.Batches = [][]string{batch()}
@@ -598,8 +622,9 @@ func GenShape(rt *rapid.T, o Opt) Shape {
 	return sh
 }
 
-// Apply builds the shape on b (indexes 10, 20, ... in term 1 continuing after
-// the snapshots b already has).
+// Apply builds the shape on b with the steps' indexes and terms (steps without
+// them get 10, 20, ... in term 1), always continuing after the snapshots b
+// already has.
 func (b *Builder) Apply(sh Shape) error {
 	if len(b.Snaps) == 0 && len(sh.Init) > 0 {
 		if err := b.Exec(sh.Init...); err != nil {
@@ -607,9 +632,20 @@ func (b *Builder) Apply(sh Shape) error {
 		}
 	}
 	for _, st := range sh.Steps {
-		index := uint64(10 * (len(b.Snaps) + 1))
-		if len(b.Snaps) > 0 && b.Snaps[len(b.Snaps)-1].Index >= index {
-			index = b.Snaps[len(b.Snaps)-1].Index + 10
+		index, term := st.Index, st.Term
+		if index == 0 {
+			index = uint64(10 * (len(b.Snaps) + 1))
+		}
+		if term == 0 {
+			term = 1
+		}
+		if n := len(b.Snaps); n > 0 {
+			if last := b.Snaps[n-1]; last.Index >= index {
+				index = last.Index + 1
+			}
+			if last := b.Snaps[n-1]; last.Term > term {
+				term = last.Term
+			}
 		}
 		switch st.Kind {
 		case Full:
@@ -618,7 +654,7 @@ func (b *Builder) Apply(sh Shape) error {
 					return err
 				}
 			}
-			if _, err := b.Full(index, 1); err != nil {
+			if _, err := b.Full(index, term); err != nil {
 				return fmt.Errorf("full: %w", err)
 			}
 		case Incremental:
@@ -630,11 +666,11 @@ func (b *Builder) Apply(sh Shape) error {
 					return fmt.Errorf("stage: %w", err)
 				}
 			}
-			if _, err := b.Incremental(index, 1); err != nil {
+			if _, err := b.Incremental(index, term); err != nil {
 				return fmt.Errorf("incremental: %w", err)
 			}
 		case Installed:
-			if _, err := b.Installed(index, 1, st.Batches); err != nil {
+			if _, err := b.Installed(index, term, st.Batches); err != nil {
 				return fmt.Errorf("installed: %w", err)
 			}
 		}
